@@ -1,8 +1,14 @@
 import Bee2V.C14.Drv
-import Bee2V.C14.DrvCmp
+import Bee2V.C14.DrvCmp32
+open Bee2V.C14.Drv in
 /-- driver executable of area C14 (`drv_c14`) -/
 def main : IO Unit := Bee2V.Proto.runLoop fun
-  | "ir" :: args => Bee2V.C14.Drv.handleIr false args
-  | "trace" :: args => Bee2V.C14.Drv.handleIr true args
-  | "stepv" :: args => Bee2V.C14.Drv.handleStepV args
-  | toks => Bee2V.C14.Cmp.handle toks
+  | "ir" :: args => handleIr g64 false args
+  | "trace" :: args => handleIr g64 true args
+  | "sf" :: args => handleSf g64 args
+  | "stepv" :: args => handleStepV g64 args
+  | "ir32" :: args => handleIr g32 false args
+  | "trace32" :: args => handleIr g32 true args
+  | "sf32" :: args => handleSf g32 args
+  | "stepv32" :: args => handleStepV g32 args
+  | toks => Bee2V.C14.Cmp.handle32 toks
